@@ -3,8 +3,8 @@
 (* value conversions it relies on (src/searcher.rs, src/function.rs Variant, *)
 (* src/util: parse_filesize, str_to_bool, parse_datetime, glob.rs).          *)
 (* Input: the Expr tree built by Parser.tla and an entry                     *)
-(*   [name |-> chars, size |-> Nat, uid |-> Nat, isdir |-> BOOLEAN,          *)
-(*    mtime |-> epoch seconds (the zone of the run is UTC)].                 *)
+(*   [name |-> chars, ext |-> chars, size, uid, gid |-> Nat, isdir, isfile   *)
+(*    |-> BOOLEAN, mtime |-> epoch seconds (the zone of the run is UTC)].    *)
 (* Output: [ok, b] - b is the Boolean the code computes; ok = FALSE when the *)
 (* evaluation leaves the part of the code that is modelled (functions,       *)
 (* arithmetic, fractional numbers, regular expressions beyond literal text   *)
@@ -39,6 +39,10 @@ GetVal(e, f) ==
      (CASE e.field = "Name" -> SV(f.name)
         [] e.field = "Size" -> IV(IF e.minus THEN 0 - f.size ELSE f.size)
         [] e.field = "Uid" -> IV(IF e.minus THEN 0 - f.uid ELSE f.uid)
+        [] e.field = "Gid" -> IV(IF e.minus THEN 0 - f.gid ELSE f.gid)
+        [] e.field = "Extension" -> SV(f.ext)
+        [] e.field = "IsFile" -> BV(f.isfile)
+        [] e.field = "IsHidden" -> BV(f.name # <<>> /\ f.name[1] = ".")
         [] e.field = "IsDir" -> BV(f.isdir)
         [] e.field = "Modified" -> DV(f.mtime)
         [] OTHER -> V("?", <<>>, 0, FALSE))
